@@ -198,8 +198,10 @@ pub(crate) fn add_regex_priv_match<W, R, T>(
             let mut cache = r0.dfa.create_cache();
             let mut search_iter = rt.limits.search_iter();
             let base_inp = Input::new(s1.as_str()).anchored(Anchored::Yes);
+            // indices are code-point positions, the automata work on byte offsets
             let (offset, len) = 'o_l: {
-                for offset in i2..=i3 {
+                for cp_offset in i2..=i3.min(s1.len()) {
+                    let offset = s1.substr(0, Some(cp_offset)).len();
                     let inp = base_inp.clone().range(offset..);
                     if let Some(i) = xraise!(match_at(
                         &r0.dfa,
@@ -231,10 +233,14 @@ pub(crate) fn add_regex_priv_match<W, R, T>(
                 pairs.push(match sub_cap {
                     None => manage_native!(XOptional::<W, R, T> { value: None }, rt.clone()),
                     Some(m) => {
-                        let start =
-                            ManagedXValue::new(XValue::Int(LazyBigint::from(m.start)), rt.clone())?;
-                        let end =
-                            ManagedXValue::new(XValue::Int(LazyBigint::from(m.end)), rt.clone())?;
+                        let start = ManagedXValue::new(
+                            XValue::Int(LazyBigint::from(s1.as_str()[..m.start].chars().count())),
+                            rt.clone(),
+                        )?;
+                        let end = ManagedXValue::new(
+                            XValue::Int(LazyBigint::from(s1.as_str()[..m.end].chars().count())),
+                            rt.clone(),
+                        )?;
                         let t = ManagedXValue::new(
                             XValue::StructInstance(vec![start, end]),
                             rt.clone(),
